@@ -478,6 +478,21 @@ pub fn c13_non_utf8_arguments(out: &mut Out) {
 		(vec![b"-t", b"\xff", b"plain.json"], 2, b"", b"Usage:"),
 		(vec![b"-t=\xe9", b"plain.json"], 2, b"", b"Usage:"),
 		(vec![b"--\xff", b"plain.json"], 2, b"", b"Usage:"),
+		// an option-like argument that is not UTF-8, AFTER an operand
+		(vec![b"plain.json", b"-\xff"], 2, b"", b"Usage:"),
+		(vec![b"-tj", b"plain.json", b"--\xff\xfe"], 2, b"", b"Usage:"),
+		(vec![b"-tj", b"plain.json", b"plain.json", b"-x\xff"], 2, b"", b"Usage:"),
+		(vec![b"plain.json", b"-\xe9t"], 2, b"", b"Usage:"),
+		// format names are exactly the documented ones
+		(vec![b"-f", b"=json", b"plain.json"], 2, b"", b"Usage:"),
+		(vec![b"-f==json", b"plain.json"], 2, b"", b"Usage:"),
+		(vec![b"-t==toml", b"plain.json"], 2, b"", b"Usage:"),
+		(vec![b"-t", b"=j", b"plain.json"], 2, b"", b"Usage:"),
+		(vec![b"-f", b" json", b"plain.json"], 2, b"", b"Usage:"),
+		(vec![b"-f", b"json ", b"plain.json"], 2, b"", b"Usage:"),
+		(vec![b"-f", b"JSON", b"plain.json"], 2, b"", b"Usage:"),
+		(vec![b"-f=json", b"plain.json"], 0, b"[0]\n", b""),
+		(vec![b"-fjson", b"plain.json"], 0, b"[0]\n", b""),
 	];
 	for (_, bin) in bins() {
 		for (args, want, stdout, needle) in &cases {
@@ -699,14 +714,34 @@ pub fn c16_consumer_gone_routes(out: &mut Out) {
 	std::fs::write(&small, b"{\"a\": [1, 2, 3]}\n").expect("write");
 	let big = format!("{dir}/big.json");
 	std::fs::write(&big, format!("{{\"rows\": [{}]}}\n", (0..30_000).map(|i| i.to_string()).collect::<Vec<_>>().join(", "))).expect("write");
+	std::fs::write(format!("{dir}/bad.json"), b"{\"a\": [1, 2,\n").expect("write");
 	for (_, bin) in bins() {
 		for to in ALL_FMTS {
 			for path in [&small, &big] {
-				for route in ["operand", "dash", "implicit-stdin", "implicit-stdin-detect"] {
+				for route in ["operand", "dash", "implicit-stdin", "implicit-stdin-detect", "operand-then-missing", "operand-then-malformed", "two-operands-then-missing"] {
+					if to == Fmt::Toml && route.starts_with("two-") {
+						continue;
+					}
 					let mut args = vec![format!("-t{}", to.letter())];
 					let stdin = match route {
 						"operand" => {
 							args.push(path.clone());
+							None
+						}
+						"operand-then-missing" => {
+							args.push(path.clone());
+							args.push(format!("{dir}/missing.json"));
+							None
+						}
+						"operand-then-malformed" => {
+							args.push(path.clone());
+							args.push(format!("{dir}/bad.json"));
+							None
+						}
+						"two-operands-then-missing" => {
+							args.push(path.clone());
+							args.push(small.clone());
+							args.push(format!("{dir}/missing.json"));
 							None
 						}
 						"dash" => {
